@@ -1,9 +1,35 @@
 (** C18: every fixed-size read of every decoder entry point is a full read
-    (io.ReadFull / io.CopyN), never a single Read call. *)
+    (io.ReadFull / io.ReadAtLeast / io.CopyN), never a single Read call: the kind table
+    regenerated from the Go source satisfies [Reader.all_full], the premise under which
+    props/C18.v is stated ([C18_code_all_full] / [C18_every_decoder]). *)
 From Coq Require Import List NArith String Bool.
 From W.gen Require Import Extracted TieLib.
+From W.lib Require Import Reader.
 Import ListNotations.
 Open Scope string_scope.
+
+Fixpoint assoc_s (nm : string) (l : list (string * string)) : option string :=
+  match l with
+  | [] => None
+  | (a, b) :: l' => if String.eqb a nm then Some b else assoc_s nm l'
+  end.
+(* anything that is not literally "Full" - including a site the translator did not find - is Single *)
+Definition extracted_read_kind (nm : string) : read_kind :=
+  match assoc_s nm read_site_kinds with
+  | Some k => if String.eqb k "Full" then Full else Single
+  | None => Single
+  end.
+Definition is_full (k : read_kind) : bool := match k with Full => true | Single => false end.
+
+Lemma tie_all_full_b : forallb (fun nm => is_full (extracted_read_kind nm)) sites = true.
+Proof. vm_compute; reflexivity. Qed.
+
+Theorem tie_all_full : all_full extracted_read_kind.
+Proof.
+  unfold all_full. apply Forall_forall. intros nm Hin.
+  pose proof (proj1 (forallb_forall _ _) tie_all_full_b nm Hin) as H.
+  cbv beta in H. destruct (extracted_read_kind nm); [cbn in H; discriminate H | reflexivity].
+Qed.
 
 Definition site_full (s : string * list string) : bool :=
   nonempty (snd s) && all_eq "Full" (snd s).
